@@ -223,7 +223,7 @@ def rule_formulas(F, R):
             # criterion overload adds the missing RSS
             f4 = [f for f in ev0.functions("score_" + side, 4, "cache_t")][0]
             rv = [v for v in f4.nodes() if v["k"] == "var" and v["n"] == "rss" and v.get("c")]
-            okr = len(rv) == 1 and pp(rv[0]["c"][0]) == CT("(score_%s(threshold) + missing_rss)" % side)
+            okr = len(rv) == 1 and bool(kalg.compare_expr(f4, rv[0]["c"][0], "s + m", atoms={"score_%s(threshold)" % side: "s", "missing_rss": "m"}, seed=R.seed)[0])
             R.check(okr, "R-C10-1", "hinge rss_" + side, f4.loc(), "rss = score_%s(threshold) + missing_rss" % side, "rss of the %s hinge is %s" % (side, pp(rv[0]["c"][0]) if rv else "?"))
     except (OutOfFragment, IndexError) as e:
         R.incomplete("R-C10-1", "hinge score", file + ":1", "cannot evaluate: %s" % e)
@@ -279,7 +279,7 @@ def rule_formulas(F, R):
                     a = assignment(x)
                     if a and a[2] == "=" and pp(a[0]).startswith("m_tables.array("):
                         n += 1
-                        okt = pp(a[1]) == "(r1(bin) / x0(bin))"
+                        okt = bool(kalg.compare_expr(f, a[1], "r / x", atoms={"r1(bin)": "r", "x0(bin)": "x"}, seed=R.seed)[0])
                         R.check(okt, "R-C10-1", "%s table" % f.name, f.loc(x), "table = r1(bin) / x0(bin) (the bin's least-squares constant)", "table coefficient is %s" % pp(a[1]))
         R.floor("R-C10-1/tables", n, 2, "table coefficient assignments")
     except (OutOfFragment, IndexError) as e:
